@@ -476,28 +476,32 @@ class ASTTypeBuilder:
             name, _ast.InputObjectTypeExtension
         )
 
-        field_names = set(f.name for f in input_object_type.fields)
-        fields = [
-            InputField(
-                f.name,
-                self.extend_type(f.type),
-                default_value=f._default_value,
-                description=f.description,
-                node=f.node,
-            )
-            for f in input_object_type.fields
-        ]
+        # has to be lazy to support cyclic definition
+        def fields():
+            field_names = set(f.name for f in input_object_type.fields)
+            fields = [
+                InputField(
+                    f.name,
+                    self.extend_type(f.type),
+                    default_value=f._default_value,
+                    description=f.description,
+                    node=f.node,
+                )
+                for f in input_object_type.fields
+            ]
 
-        for extension_node in extensions:
-            for ext_field in extension_node.fields:
-                if ext_field.name.value in field_names:
-                    raise ExtensionError(
-                        'Found duplicate field "%s" when extending input object "%s"'
-                        % (ext_field.name.value, name),
-                        [ext_field],
-                    )
-                field_names.add(ext_field.name.value)
-                fields.append(self._build_input_field(ext_field))
+            for extension_node in extensions:
+                for ext_field in extension_node.fields:
+                    if ext_field.name.value in field_names:
+                        raise ExtensionError(
+                            'Found duplicate field "%s" when extending input object "%s"'
+                            % (ext_field.name.value, name),
+                            [ext_field],
+                        )
+                    field_names.add(ext_field.name.value)
+                    fields.append(self._build_input_field(ext_field))
+
+            return fields
 
         return InputObjectType(
             name,
